@@ -94,7 +94,11 @@ def run(ctx):
                     continue
                 ntrans += 1
                 for why in l1_monitor(rec):
-                    (known if why.startswith(K_TIME) else other).append((hi, why))
+                    # the known mechanism needs a failed attempt (a retry decision that is re-taken on replay)
+                    if why.startswith(K_TIME) and any("RFailed" in o for o in h["ops"]):
+                        known.append((hi, why))
+                    else:
+                        other.append((hi, why.replace(K_TIME + ": ", "") if why.startswith(K_TIME) else why))
             ctx.count(h["nops"], ("l1", hi, h["nops"]) if h["nops"] > 5 else None)
         ctx.programs += len(hs)
         ctx.disagreements += len(bad)
